@@ -192,7 +192,7 @@ func c03Run(maxSteps int, timely bool) {
 		case c03Approve:
 			userDone = true
 			earlyApprove = serverDeliveries < 2 // only the init frame was processed so far
-			sv.info.paired = true // RegisterRemoteSKI sets trust, then approves the pending connection
+			sv.info.paired = true               // RegisterRemoteSKI sets trust, then approves the pending connection
 			sv.c.ApprovePendingHandshake()
 			sv.afterEvent()
 		case c03Cancel:
